@@ -26,7 +26,7 @@ CHECKS = {
  'C09': dict(
     technique="explicit-state exploration over recipe programs x stage layouts; oracle = independent per-step ledger built from prefix bakes (reference model), per-step accounting + stage arithmetic",
     text="Every successfully baking program of <= 3 steps (~11 800 per valuation; quick: one valuation) / <= 4 steps (~270 000, thorough: one valuation to depth 4, the other two to depth 3) x 8-12 stage layouts (incl. an open stage at bake, stages without steps, refused stage calls and refused premature bakes) x every substance x destination sets x timeframes x units: "
-         "~11 M get_substance_used answers per quick run compared with the ledger (gain of the destinations + discarded), net decrease => ValueError; the whole-recipe query also with the destinations as tuple, generator, iterator and dict view, and with unit / timeframe / destinations left out."+CFG_T,
+         "~11 M get_substance_used answers per quick run compared with the ledger (gain of the destinations + discarded), net decrease => ValueError; the whole-recipe query also with the destinations as tuple, generator, iterator and dict view, and with unit / timeframe / destinations left out; a second recipe built from the (already queried) results of the first performs the last step alone."+CFG_T,
     note="Noise zone (|true net change| within a few storage resolutions) is don't-care between ValueError and 0; displayed precision. " + TRUST,
     ref="DESIGN.md section 4 C09"),
  'C15': dict(
@@ -48,7 +48,7 @@ CHECKS = {
  'C05': dict(
     technique="exhaustive enumeration of the solution-specification grammar; feasibility classified by an exact rational linear solve; results judged by definition against the reference model",
     text="~17 000 specifications per valuation (6 solute lists x 5 solvents incl. 3 containers x 4 feasibility levels x which-two-of-three x every concentration spelling / quantity / total unit, "
-         "+ broadcast, inconsistent and wrong-kind families): key set, positivity, every stated concentration / quantity / total, uniform solvent aliquot and conservation, accept/refuse decision, identity of the returned vessels; an argument-shape family (one value per solute, two of three keywords); every accepted request also as a recipe step."+CFG,
+         "+ broadcast, inconsistent and wrong-kind families): key set, positivity, every stated concentration / quantity / total, uniform solvent aliquot and conservation, accept/refuse decision, identity of the returned vessels; an argument-shape family (one value per solute, two of three keywords), per-solute units of different kinds, three solutes with non-adjacent shared denominators; every accepted request also as a recipe step."+CFG,
     note="Values come from three valuations and four feasibility levels; don't-care near boundaries, for singular specs, and where the solvent container already holds the solute. " + TRUST,
     ref="DESIGN.md section 4 C05"),
  'C11': dict(
@@ -89,7 +89,7 @@ CHECKS = {
     technique="explicit-state exploration of the implementation: BFS over operation histories with canonical-state hashing; invariant (conservation + frame) on every transition",
     text="Every transfer reachable by the bounded exhaustive enumeration (all ordered pairs of source/destination forms incl. same-plate "
          "regions x 4 units from 3 base states, every unit spelling x size x pairing form, and all histories of <= 3/4 operations over a "
-         "48-action alphabet, plus a world of vessels holding substances that share a name, 44 actions to depth 2/3) is executed on the real API; totals per substance identity (name, kind, parameters; never through Substance.__eq__) over the whole world and bit-identity of untouched wells are checked on each; the geometry sweep also with every transfer made twice through the same slice objects."+CFG,
+         "48-action alphabet, plus a world of vessels holding substances that share a name, 44 actions to depth 2/3) is executed on the real API; totals per substance identity (name, kind, parameters; never through Substance.__eq__) over the whole world and bit-identity of untouched wells are checked on each; the geometry sweep also with every transfer made twice through the same slice objects; requests for almost everything a source holds (fractions 0.9999 .. 0.99999999 of the reached content) and a world with femtomole traces."+CFG,
     note="Bounded depth and data tables (3 valuations); tolerance 1e-9 storage units per written well. " + TRUST,
     ref="DESIGN.md section 4 C01"),
  'C02': dict(
